@@ -125,6 +125,23 @@ def _objective_pairing(ctx, f, p, names, rule="R-ENUM"):
             subs.setdefault(s[1][1], set()).add(repr(s[2]))
     ok = all(nm in subs and subs[nm] == {repr(var)} for nm in names)
     ctx.ob(rule, f, "objective pairs p_i, rho_i, M_i", ok, "all three indexed by the same i" if ok else f"index use {subs}", p.node)
+    # the pairing of rho_i with M_i must be the trace inner product Tr(rho_i M_i): picos.trace(rho * M) or (rho | M).
+    # An entrywise sum of a Hadamard product, sum(rho ^ M), is Tr(rho^T M): the transposed (= conjugated) state for complex data.
+    def _has(t, nm):
+        return any(isinstance(x, tuple) and x and x[0] == "sub" and x[1] == ("n", nm) for x in subterms(t))
+    pair = None
+    for s_ in subterms(body):
+        if isinstance(s_, tuple) and s_ and s_[0] in ("^", "|", "*", "@") and _has(s_, names[1]) and _has(s_, names[2]):
+            # innermost operator that joins the state and the measurement operator
+            if pair is None or len(repr(s_)) < len(repr(pair)):
+                pair = s_
+    if pair is not None:
+        okpair = pair[0] in ("|",) or (pair[0] in ("*", "@") and any(isinstance(x, tuple) and x and x[0] == "call" and str(x[1]).endswith(".trace") and pair in x[2] for x in subterms(body)))
+        had = pair[0] == "^"
+        ctx.ob("R-COV", f, "objective pairs rho_i with M_i by the trace inner product Tr(rho_i M_i)", True if okpair else False if had else None,
+               "trace(rho * M) / (rho | M)" if okpair else
+               "the state and the operator are joined by the entrywise (Hadamard) product and summed: that is Tr(rho^T M), the pairing with the conjugated state -- the value is unchanged "
+               "but the returned operators are the conjugates of an optimal measurement for complex ensembles" if had else f"pairing {show(pair)[:60]} not recognised", p.node, required=okpair or had)
     Ni = Normalizer(ctx.model, f, inline=True)
     full = rng[0] == "call" and rng[1] == "builtins.range" and len(rng[2]) == 1
     if full and rng[2][0][0] == "n" and rng[2][0][1] in Ni.env.single:
@@ -156,6 +173,9 @@ def dual_readback_transposed(ctx, f, rule="R-SDP"):
     t = N0(rb[0].elt)
     ok = t[0] in ("T", "conj") and t[1][0] == "attr" and t[1][2] == "dual"
     bare = t[0] == "attr" and t[2] == "dual"
+    # the dual of an LMI is Hermitian: its conjugate transpose is the dual itself, i.e. still the un-transposed operator
+    if t[0] == "dag" and t[1][0] == "attr" and t[1][2] == "dual":
+        bare = True
     ctx.ob(rule, f, "recovered measurement operators are the transposed constraint duals", True if ok else False if bare else None,
            "get_constraint(k).dual.T" if ok else "the constraint duals are returned as they come from picos: for complex states they are the entrywise conjugate of the optimal measurement "
            "(sum_i p_i Tr(rho_i M_i) differs from the reported value)" if bare else f"read-back {show(t)[:60]}", rb[0], required=ok or bare)
